@@ -191,6 +191,8 @@ pub fn e() -> Face {
 
 /// Pentagon shape definition
 pub fn pentagon() -> &'static PentagonShape {
+    #[cfg(feature = "verif")]
+    crate::verif::yield_point(crate::verif::site::PENTAGON_GET);
     &PENTAGON_CONSTANTS.pentagon
 }
 
@@ -201,11 +203,15 @@ pub fn u() -> Face {
 
 /// Triangle vertex v
 pub fn v() -> Face {
+    #[cfg(feature = "verif")]
+    crate::verif::yield_point(crate::verif::site::PENTAGON_GET);
     PENTAGON_CONSTANTS.triangle_vertices.v
 }
 
 /// Triangle vertex w
 pub fn w() -> Face {
+    #[cfg(feature = "verif")]
+    crate::verif::yield_point(crate::verif::site::PENTAGON_GET);
     PENTAGON_CONSTANTS.triangle_vertices.w
 }
 
@@ -216,15 +222,21 @@ pub fn v_angle() -> Radians {
 
 /// Triangle shape definition
 pub fn triangle() -> &'static PentagonShape {
+    #[cfg(feature = "verif")]
+    crate::verif::yield_point(crate::verif::site::PENTAGON_GET);
     &PENTAGON_CONSTANTS.triangle
 }
 
 /// Basis matrix for coordinate transformations
 pub fn basis() -> Mat2 {
+    #[cfg(feature = "verif")]
+    crate::verif::yield_point(crate::verif::site::PENTAGON_GET);
     PENTAGON_CONSTANTS.basis
 }
 
 /// Inverse basis matrix
 pub fn basis_inverse() -> Mat2 {
+    #[cfg(feature = "verif")]
+    crate::verif::yield_point(crate::verif::site::PENTAGON_GET);
     PENTAGON_CONSTANTS.basis_inverse
 }
